@@ -1,9 +1,9 @@
 import PymtlVerif.Proofs.PipeL2
-import PymtlVerif.Props.C20p
+import PymtlVerif.Proofs.PipeDemo
 /-!
 # LEVEL 2: non-vacuity of the ghost machine on concrete runs
 
-`demoTrace` (`Props/C20p.lean`) is a recorded run of the real `ProcRTL`; its taken `bne` (cycle 13) squashes
+`demoTrace` (`Proofs/PipeDemo.lean`) is a recorded run of the real `ProcRTL`; its taken `bne` (cycle 13) squashes
 one instruction in D and one fetch in F whose response is there in the same cycle (dropped in SNOOP).
 `waitTrace` replays the first 13 cycles, then withholds the instruction response in the squash cycle, so the
 drop unit goes to WAIT and drops the late response two cycles later; then a reset in mid-flight.
